@@ -14,6 +14,7 @@
                      frequency it gives back D(f_ref) * L for the three ways D is specified; freq=None = f_ref.
  Rm memo          : every memoisation construct in the functions behind this property is keyed by everything it reads.
  Rp presence      : optional numeric fields are tested with `is None` / membership, never by truthiness (0 is a value).
+ Rk field/key     : the parameter classes store every configuration entry under its own name (frozen rename table).
 """
 import ast
 
@@ -309,6 +310,15 @@ def r4_cd(ctx):
 
 
 
+def rk_field_key(ctx):
+    """Rk: the parameter classes behind this property store every configuration entry under its own name (self.X = params['X']);
+    the deliberate renames are a frozen table (gscan/fieldkey.py)"""
+    from ..fieldkey import field_key_rule
+    repo = ctx.repo
+    n = field_key_rule(ctx, 'Rk.field-key', [repo.cls('FiberParams', 'gnpy.core.parameters')], 'a fibre parameter would be taken from another entry')
+    ctx.need('Rk.field-key', 5)
+
+
 from ..memo import rule_for as _memo_rule
 
 RULES_MEMO = ('Rm.memo', _memo_rule('C05', 'the loss or dispersion of another fibre configuration would be applied'))
@@ -318,4 +328,4 @@ from ..presence import rule_for as _presence_rule
 
 RULES_PRESENCE = ('Rp.presence', _presence_rule('C05', 'a fibre parameter of exactly 0 would be replaced by a default'))
 
-RULES = [('R4.cd', r4_cd), ('R1.once', r1_once), ('R2.budget', r2_budget), ('R3.accumulators', r3_accumulators), RULES_MEMO, RULES_PRESENCE]
+RULES = [('R4.cd', r4_cd), ('R1.once', r1_once), ('R2.budget', r2_budget), ('R3.accumulators', r3_accumulators), RULES_MEMO, RULES_PRESENCE, ('Rk.field-key', rk_field_key)]
